@@ -44,6 +44,8 @@ WHY = {
  'clientV2_SetReadyCount': 'any change of RDY wakes the pump', 'clientV2_IsReadyForMessages': 'the send guard: not paused, in-flight < RDY, RDY > 0',
  'clientV2_SendingMessage': 'counters on delivery', 'clientV2_FinishedMessage': 'counters on FIN',
  'clientV2_TimedOutMessage': 'counters on timeout', 'clientV2_RequeuedMessage': 'counters on REQ', 'clientV2_StartClose': 'CLS: RDY 0, state closing',
+ 'clientV2_Empty': 'the consumer side of an Empty: wakes the pump, does NOT store into the in-flight count (the channel has released it per message: F23)',
+ 'Channel_initPQ': 'fresh in-flight and deferred structures; the in-flight set that was replaced is handed back to the caller',
  'protocolV2_NewClient': 'connection ids come from ONE atomic increment (never reused, never shared)',
  'Channel_doPause': 'pause / unpause of a channel: the flag is stored FIRST, then every consumer is woken to re-read it',
  'Topic_doPause': 'pause / unpause of a topic: the flag is stored, then the pump is told',
